@@ -61,7 +61,7 @@ func twinRun(a, b prog.Program, oa, ob prog.RunOpts, diffKind string, seqOnly bo
 
 func init() { evals["C02"] = evalC02 }
 
-var c02Sched = []string{"attach", "attach", "detach", "reattach", "cachepurge", "cacheremove", "pushonly"}
+var c02Sched = []string{"attach", "attach", "detach", "reattach", "cachepurge", "cacheremove", "pushonly", "compact"}
 
 // evalC02: snapshot catch-up == change replay. Run A uses the drawn small
 // snapshot interval/threshold; run B is the same program in a project that
@@ -90,6 +90,12 @@ func genC02() *rapid.Generator[prog.Program] {
 		p.Cfg.ServerNoGC = rapid.IntRange(0, 4).Draw(t, "snogc") == 0
 		if rapid.IntRange(0, 3).Draw(t, "serial") == 0 {
 			p.Cfg.Flags = map[string]int{"serial": 1}
+		}
+		// an eighth of the cases: a forced compaction (everybody re-attaches)
+		// after a short prefix, so that the new log outgrows the old head and
+		// later snapshot builds start from whatever the cache holds
+		if len(p.Steps) > 6 && rapid.IntRange(0, 7).Draw(t, "earlycompact") == 0 {
+			p.Steps[rapid.IntRange(1, 5).Draw(t, "at")] = prog.Step{Op: "compact"}
 		}
 		return p
 	})
@@ -144,11 +150,51 @@ func genC03() *rapid.Generator[prog.Program] {
 	}
 	withSnap, without := base(true), base(false)
 	return rapid.Custom(func(t *rapid.T) prog.Program {
+		var p prog.Program
 		if rapid.IntRange(0, 2).Draw(t, "snap") == 0 {
-			return withSnap.Draw(t, "p")
+			p = withSnap.Draw(t, "p")
+		} else {
+			p = without.Draw(t, "p")
 		}
-		return without.Draw(t, "p")
+		// a third of the cases end in 1..3 "staggered purge" episodes: X
+		// deletes something and syncs; R learns of it (two syncs) while D is
+		// still behind, so R must keep the tombstone; D catches up and X syncs
+		// again (both may purge now); R - without syncing in between - makes
+		// 1..3 more edits next to what it still holds, then syncs.
+		if p.Cfg.N >= 3 && rapid.IntRange(0, 2).Draw(t, "staggered") == 0 {
+			p.Steps = append(p.Steps, staggeredPurge(t, p.Cfg.N, rapid.IntRange(1, 3).Draw(t, "episodes"))...)
+		}
+		return p
 	})
+}
+
+func staggeredPurge(t *rapid.T, n, episodes int) []prog.Step {
+	var out []prog.Step
+	sync := func(w int) prog.Step { return prog.Step{Who: w, Op: "sync"} }
+	out = append(out, prog.Step{Op: "round"})
+	for e := 0; e < episodes; e++ {
+		perm := rapid.Permutation([]int{0, 1, 2}).Draw(t, "roles")
+		off := rapid.IntRange(0, n-1).Draw(t, "off")
+		x, r, d := (perm[0]+off)%n, (perm[1]+off)%n, (perm[2]+off)%n
+		if n == 3 {
+			x, r, d = perm[0], perm[1], perm[2]
+		}
+		kind := rapid.IntRange(0, 2).Draw(t, "kind")
+		del := [][]string{{"adel"}, {"tedit"}, {"trdel", "trtext"}}[kind]
+		follow := [][]string{{"amovefront", "amove", "ains", "aadd", "aset", "adel"}, {"tedit", "tedit", "tstyle"}, {"trins", "trtext", "trdel", "trstyle"}}[kind]
+		dop := prog.Step{Who: x, Op: rapid.SampledFrom(del).Draw(t, "del"), A: rapid.IntRange(0, 7).Draw(t, "a"), B: rapid.IntRange(1, 3).Draw(t, "b")}
+		// C == 0 selects the empty replacement: a pure deletion for tedit/trtext
+		out = append(out, dop, sync(x), sync(r), sync(r), sync(d), sync(d), sync(x))
+		if rapid.Bool().Draw(t, "serverbuild") {
+			out = append(out, prog.Step{Op: "histview", A: 7, B: 7})
+		}
+		for k := rapid.IntRange(1, 3).Draw(t, "edits"); k > 0; k-- {
+			out = append(out, prog.Step{Who: r, Op: rapid.SampledFrom(follow).Draw(t, "op"),
+				A: rapid.IntRange(0, 7).Draw(t, "a"), B: rapid.IntRange(0, 7).Draw(t, "b"), C: rapid.IntRange(0, 8).Draw(t, "c")})
+		}
+		out = append(out, sync(r), prog.Step{Op: "round"})
+	}
+	return out
 }
 
 func TestC03(t *testing.T) {
